@@ -6,7 +6,7 @@ cd /verif
 SNAP=$(mktemp /tmp/gtcheck.snap.XXXXXX); cp bin/gtcheck $SNAP; chmod +x $SNAP; export GTCHECK_BIN=$SNAP; trap "rm -f $SNAP" EXIT
 VERB=0; [ "$1" = "-v" ] && { VERB=1; shift; }
 PROPS=$(python3 -c "import json;print(' '.join(c['property_id'] for c in json.load(open('MANIFEST.json'))['checks']))")
-CORPUS="${CORPUS:-selftest/refactors}"; LIST="$@"; [ -z "$LIST" ] && LIST=$(ls $CORPUS)
+CORPUS="${CORPUS:-selftest/refactors}"; LIST="$@"; [ -z "$LIST" ] && LIST=$(cd $CORPUS && ls -d */ | tr -d /)
 one() {
   r=$1
   W=$(mktemp -d /tmp/refrun.XXXXXX)
